@@ -144,7 +144,8 @@ FR_EXITS = ['continue', 'break', 'subdir_done', 'fallthrough']
 
 
 def fr_exit_jobs(thorough):
-    cl = [c for c in fr_clauses(thorough) if c[0] in ('vc', 'and', 'paren')]
+    # (all atoms in both tiers: a leaked range shows only if it excludes the versions older than the feature, e.g. '>=1.5')
+    cl = [c for c in fr_clauses(True) if c[0] in ('vc', 'and', 'paren')]
     decls = ['>=0.50', '>=1.5']
     return [('exit', c, ex, d) for c in cl for ex in FR_EXITS for d in decls]
 
